@@ -113,8 +113,8 @@ CLAIMS = {
   design_ref="§6 C07"),
  "C02": dict(
   category="proof",
-  text="Narrow, partial. Proved: (1) Decl.deepCopy / CustomFuncDecl.deepCopy copy EVERY schema-visible scalar field (const, external, xpath, custom_parse, template, type, no_trim, keep_empty_or_null, custom_func name and ignore_error, presence of xpath_dynamic/custom_func, argument count) and write fresh objects only - template inlining and the declaration hash (the per-record result-cache key) are both computed from this copy; (2) every record is evaluated with an evaluation context created for that record (NewParseCtx is fresh with caching on; ingester.Read creates it per call and ParseNode requires a context whose cache is valid for the current heap); (3) after validation an array declaration's children are its element declarations in declaration order, which is the order parseArray emits them in (F2 fixed: the children were sorted by fqdn string).",
-  note="(3) is proved against an ASSUMED frame of the recursive validateDecl (trusted contract: validation writes only the subtree of the declaration it is given, the hash table and fresh template copies; the declaration tree is a tree). NOT decided by this check: the evaluation semantics itself (ParseNode and the per-kind parse functions, normalisation and type conversion in value.go, xpath selection), the cache key's blindness to anchoring (F1, a design-round finding that is not repaired).",
+  text="Narrow, partial. Proved: (1) Decl.deepCopy / CustomFuncDecl.deepCopy copy EVERY schema-visible scalar field (const, external, xpath, custom_parse, template, type, no_trim, keep_empty_or_null, custom_func name and ignore_error, presence of xpath_dynamic/custom_func, argument count) and write fresh objects only - template inlining and the declaration hash (the per-record result-cache key) are both computed from this copy; (2) every record is evaluated with an evaluation context created for that record (NewParseCtx is fresh with caching on; ingester.Read creates it per call and ParseNode requires a context whose cache is valid for the current heap); (3) after validation an array declaration's children are its element declarations in declaration order, which is the order parseArray emits them in (F2 fixed: the children were sorted by fqdn string); (4) xpath selection of a declaration: MatchSingle returns the node itself for '.', the single selected node, ErrNoMatch for none and ErrMoreThanExpected for several, MatchAll returns all selected nodes in the engine's order (loop invariant over the iterator); a declaration's own static xpath is applied exactly when it is not FINAL_OUTPUT and not an array element, no match yields 'no value' (nil, nil), several matches an error.",
+  note="(3) is proved against an ASSUMED frame of the recursive validateDecl (trusted contract: validation writes only the subtree of the declaration it is given, the hash table and fresh template copies; the declaration tree is a tree). The xpath engine's selection (selCount/selAt) is uninterpreted; QueryIter/nodeFromIter are the trusted binding to its iterator. NOT decided by this check: the rest of the evaluation semantics (ParseNode and the per-kind parse functions, xpath_dynamic, normalisation and type conversion in value.go), the cache key's blindness to anchoring (F1, a design-round finding that is not repaired).",
   technique="contract-based deductive verification: field-by-field postconditions with an explicit frame over recursive calls, ghost cache validity, loop invariant over the element/children slices, SMT",
   design_ref="§6 C02"),
  "C03": dict(
